@@ -23,9 +23,9 @@ type probe struct {
 var probesByProp = map[string][]probe{
 	"C01": {{"varlen-merge-sections/value", probeVarlenSections}},
 	"C09": {{"varlen-merge-sections/merge-lost", probeVarlenSections}},
-	"C03": {{"varlen-merge-then-put/index", probeVarlen}},
-	"C16": {{"varlen-merge-then-put/sorted", probeVarlen}},
-	"C19": {{"varlen-merge-then-put/trigger", probeVarlen}},
+	"C03": {{"varlen-merge-then-put/index", probeVarlen}, {"revisited-block-after-buffer-growth/index", probeRevisit}},
+	"C16": {{"varlen-merge-then-put/sorted", probeVarlen}, {"revisited-block-after-buffer-growth/sorted", probeRevisit}},
+	"C19": {{"varlen-merge-then-put/trigger", probeVarlen}, {"revisited-block-after-buffer-growth/trigger", probeRevisit}},
 	"C06": {{"varlen-merge-then-put/replica", probeVarlen}, {"key-delete-beside-rekey-in-another-block/replica", probeKeyDeleteRekey}},
 	"C11": {{"write-then-delete-orphan", probeWriteThenDelete}},
 	"C12": {{"two-creating-ops-one-key", probeKeyTwice}},
@@ -319,5 +319,74 @@ func probeKeyDeleteRekey(w *W, idx int, prop string) {
 	if d := cmpStates(stP, stR, "primary", "replica", sv); d != "" {
 		w.Violate(idx, "probe:key-delete-rekey", "A: txn{DeleteKey(\"K\") (row 0, block 0); QueryKey(\"L\") v=3}, parked after its row-marker pass; B: txn{at(block-1 row) SetKey(\"K\")} commits and reaches the stream first; A resumes. Stream replayed in emission order: "+d,
 			"", map[string]any{"phase": 1, "idx": idx})
+	}
+}
+
+// probeRevisit (not a known finding: expected to be silent): one transaction writes a string
+// column in block 0, then in block 1, then in block 0 again. The first write is a length-changing
+// merge with a large result - the rewritten value is appended to the transaction buffer, which
+// has to grow (re-allocate) in the middle of the commit's pass over it; the last write is a merge
+// whose result has the length of its delta (rewritten in place). Index, sorted index and trigger
+// read the rewritten buffer in the second pass and must see all three final values.
+func probeRevisit(w *W, idx int, prop string) {
+	for _, big := range []int{9000, 20000, 40000} {
+		wd := newWorld(64, false, false)
+		wd.createColumn(ColSpec{"sc", KStringCat})
+		wd.createIndex(IndexSpec{Name: "long", Col: "sc", P: Pred{Op: "len>", I: 2}})
+		wd.createSortIndex(SortSpec{Name: "by_sc", Col: "sc"})
+		wd.createTrigger(TrigSpec{Name: "tg", Col: "sc"})
+		h := &history{w: w, idx: idx, wd: wd, stats: map[string]int64{}, lastID: map[uint32]uint64{}, caseID: "probe:revisit", cfg: e1Cfg{Oracles: oracleSet()}}
+		var ops []Op
+		for i := 0; i < 9; i++ {
+			var ws []Write
+			if i == 0 {
+				ws = []Write{{Col: "sc", V: Val{S: "x"}}}
+			} else if i != 7 {
+				ws = []Write{{Col: "sc", V: Val{S: fmt.Sprintf("r%d", i)}}}
+			}
+			ops = append(ops, Op{T: "ins", W: ws})
+		}
+		t1 := TxnSpec{Ops: ops}
+		wd.execTxn(wd.P, &t1, false, nil)
+		wd.M.Apply(t1.Ops)
+		const row1 = 16384 + 10
+		mk := func(name string) *commit.Buffer { b := commit.NewBuffer(64); b.Reset(name); return b }
+		rb, sb := mk("row"), mk("sc")
+		rb.PutOperation(commit.Insert, row1)
+		sb.PutString(commit.Put, row1, "b1")
+		if err := wd.P.Replay(commit.Commit{ID: 1, Chunk: 1, Updates: []*commit.Buffer{rb, sb}}); err != nil {
+			panic(err)
+		}
+		wd.M.Live[row1] = true
+		wd.M.Cells["sc"][row1] = Val{S: "b1"}
+		wd.cutTriggers()
+		g := newGen(int64(big), "edge")
+		t2 := TxnSpec{Ops: []Op{
+			{T: "at", Off: t1.Ops[0].GotOff, W: []Write{{Col: "sc", Merge: true, V: Val{S: g.randBytes(big)}}}},
+			{T: "at", Off: row1, W: []Write{{Col: "sc", V: Val{S: "yy"}}}},
+			{T: "at", Off: t1.Ops[7].GotOff, W: []Write{{Col: "sc", Merge: true, V: Val{S: "abc"}}}},
+		}}
+		wd.execTxn(wd.P, &t2, false, nil)
+		want := wd.M.Apply(t2.Ops)
+		got := wd.cutTriggers()
+		sv := wd.M.view(nil)
+		st := dumpState(wd.P, sv)
+		desc := fmt.Sprintf("txn{at(block-0 row holding \"x\") sc+=<%d bytes>; at(block-1 row) sc=\"yy\"; at(block-0 row without a value) sc+=\"abc\"}: ", big)
+		d := cmpValues(st, wd.M)
+		if d == "" {
+			switch prop {
+			case "C03":
+				d = cmpIndexes(st, sv)
+			case "C16":
+				d = cmpSorted(st, sv)
+			case "C19":
+				d = cmpTriggers(wd.M, got, want, false)
+			}
+		}
+		h.wd.Close()
+		if d != "" {
+			w.Violate(idx, "probe:revisit", desc+d, "", map[string]any{"phase": 1, "idx": idx})
+			return
+		}
 	}
 }
